@@ -992,3 +992,83 @@ class OptShapes(Gen):
             return self.sel(f"t0 AS {a0}", {"k": "table", "name": "t0"}, [sc.ref(0, 0), sube])
         w = self.cmp(sc.ref(0, 1), self.rng.choice(["<", ">=", "="]), sube)
         return self.sel(f"t0 AS {a0}", {"k": "table", "name": "t0"}, [sc.ref(0, 0), sc.ref(0, 1)], where=w)
+
+
+# ---------------------------------------------------------------------------------------------
+# Join graphs (C32): n relations connected by equality predicates (chains, stars, cycles, random
+# connected graphs, composite-key edges), written as comma joins + WHERE or as INNER JOIN ... ON.
+class JoinGraphs(Gen):
+    def case(self, cid):
+        r = self.rng
+        n = r.choice([2, 3, 3, 4, 4, 5, 5, 6, 7])
+        kind = r.choice(["chain", "star", "cycle", "random", "composite"])
+        edges = set()
+        if kind == "chain" or n == 2:
+            edges = {(i, i + 1) for i in range(n - 1)}
+        elif kind == "star":
+            edges = {(0, i) for i in range(1, n)}
+        elif kind == "cycle":
+            edges = {(i, (i + 1) % n) for i in range(n)}
+            edges = {(min(a, b), max(a, b)) for a, b in edges if a != b}
+        else:
+            order = list(range(n))
+            r.shuffle(order)
+            for i in range(1, n):
+                j = r.randrange(i)
+                edges.add((min(order[i], order[j]), max(order[i], order[j])))
+            for _ in range(r.randint(0, 2)):
+                a, b = r.sample(range(n), 2)
+                edges.add((min(a, b), max(a, b)))
+        edges = sorted(edges)
+        # tables: rI(aI, bI) small, sizes differ so the cost model has something to reorder
+        tables = []
+        for i in range(n):
+            rows = [[r.randint(0, 2), r.randint(0, 2)] for _ in range(r.choice([1, 2, 3, 4]))]
+            tables.append(Table(f"r{i}", [(f"a{i}", "int"), (f"b{i}", "int")], rows, nonnull=(f"a{i}", f"b{i}")))
+        self.tables = tables
+        perm = list(range(n))
+        if r.random() < 0.7:
+            r.shuffle(perm)            # textual FROM order differs from the graph's natural order
+        als = {i: self.fresh("x") for i in range(n)}
+        cols = []
+        off = {}
+        for i in perm:
+            off[i] = len(cols)
+            cols += [Col(als[i], f"a{i}", "int", base=True, nullable=False), Col(als[i], f"b{i}", "int", base=True, nullable=False)]
+        sc = Scope(cols)
+        preds = []
+        for (a, b) in edges:
+            ca = 0 if r.random() < 0.7 else 1
+            cb = 0 if r.random() < 0.7 else 1
+            x, y = sc.ref(0, off[a] + ca), sc.ref(0, off[b] + cb)
+            preds.append(E(f"({x.sql} = {y.sql})", {"k": "cmp", "op": "=", "a": x.m, "b": y.m}, "bool"))
+            if kind == "composite" and r.random() < 0.6:
+                x2, y2 = sc.ref(0, off[a] + 1 - ca), sc.ref(0, off[b] + 1 - cb)
+                preds.append(E(f"({x2.sql} = {y2.sql})", {"k": "cmp", "op": "=", "a": x2.m, "b": y2.m}, "bool"))
+        extra = None
+        if r.random() < 0.4:
+            i = r.randrange(n)
+            x = sc.ref(0, off[i] + 1)
+            extra = E(f"({x.sql} >= {r.randint(0, 1)})", {"k": "cmp", "op": ">=", "a": x.m, "b": {"k": "lit", "v": 0}}, "bool")
+            extra = E(extra.sql, {"k": "cmp", "op": ">=", "a": x.m, "b": {"k": "lit", "v": int(extra.sql.split(">= ")[1].rstrip(")"))}}, "bool")
+        conj = preds + ([extra] if extra else [])
+        r.shuffle(conj)
+        w = conj[0]
+        for c in conj[1:]:
+            w = E(f"({w.sql} AND {c.sql})", {"k": "and", "a": w.m, "b": c.m}, "bool")
+        fsql = ", ".join(f"r{i} AS {als[i]}" for i in perm)
+        fm = {"k": "table", "name": f"r{perm[0]}"}
+        ln = 2
+        for i in perm[1:]:
+            fm = {"k": "join", "kind": "cross", "l": fm, "r": {"k": "table", "name": f"r{i}"}, "on": TRUE_M, "ln": ln, "rn": 2}
+            ln += 2
+        cnt = E("COUNT(*)", {"f": "count*", "a": TRUE_M, "distinct": 0}, "int")
+        sm = sc.ref(0, off[perm[0]] + 1)
+        sme = E(f"SUM({sm.sql})", {"f": "sum", "a": sm.m, "distinct": 0}, "int")
+        names = [self.fresh("k"), self.fresh("k")]
+        sql = f"SELECT COUNT(*) AS {names[0]}, {sme.sql} AS {names[1]} FROM {fsql} WHERE {w.sql}"
+        m = {"k": "select", "from": fm, "where": w.m, "group": {"on": 1, "keys": [], "aggs": [cnt.m, sme.m], "having": TRUE_M, "sets": []},
+             "proj": [{"k": "col", "d": 0, "i": 1}, {"k": "col", "d": 0, "i": 2}], "distinct": 0, "order": [], "limit": -1, "offset": 0}
+        c = make_case(cid, tables, Q(sql, m, [(names[0], "int"), (names[1], "int")]), tags=[kind, f"n{n}"])
+        c["graph"] = {"rels": [als[i] for i in range(n)], "edges": [[als[a], als[b]] for (a, b) in edges]}
+        return c
